@@ -94,4 +94,18 @@ example : ChoiceContract (comb3 34) (nCombos 34 (kernelBudgetS5 .homoscedastic 2
   ⟨List.nodup_range, fun i hi => by have := List.mem_range.1 hi; have : comb3 34 = 5984 := by decide
                                     omega, by simp; decide⟩
 
+/-- (S8-C05) the "square the means once per theta" rewrite `m_i² + m_j² - 2 m_i m_j` of `(m_i - m_j)²` is an identity in EVERY
+    commutative ring: over exact arithmetic the two kernels are the same function, so no theorem of this file (all stated over ℝ) can
+    distinguish them -- the rewrite is invisible to the model.  What differs is the rounding error (2^-52 · m² instead of
+    2^-52 · (m_i - m_j)²: catastrophic cancellation when the means share a large offset); that is decided by the floating-point oracle
+    alone (harness class `offset-means`, tolerance from the condition of the sum). -/
+theorem C05_expanded_square_invisible {R : Type} [CommRing R] (a b : R) :
+    a * a + b * b - 2 * (a * b) = (a - b) * (a - b) := by ring
+
+/-- … the same statement with the model's own `sq` (`np.square`) at ℝ, in the shape the `d12 / d13 / d23` terms of `comboTerm` have:
+    `v · sq (m_i - m_j) = v · (sq m_i + sq m_j - 2 m_i m_j)`. -/
+theorem C05_expanded_square_invisible_model (v a b : ℝ) :
+    v * Batchie.Dbal.sq (a - b) = v * (Batchie.Dbal.sq a + Batchie.Dbal.sq b - (1 + 1) * (a * b)) := by
+  unfold Batchie.Dbal.sq; ring
+
 end Batchie.Props.C05
